@@ -9,6 +9,14 @@
 (* (bytecode listing, WASM bytes, state layout, outputs, diagnostics) must *)
 (* be a function of the source and the plugin set alone.                   *)
 (*                                                                         *)
+(* A source may be *faulty*: its compilation ends in a panic (a macro-stage *)
+(* primitive fed malformed input, an unsupported shape in code generation).*)
+(* That panic is the job's own result - the same alone and next to other   *)
+(* threads - and must not reach anybody else.  The session lock is a       *)
+(* mutex that is poisoned by a panic of its holder: under Leak = "poison"  *)
+(* the faulty job panics while it holds the lock, and every later          *)
+(* acquisition, by any thread, fails.                                      *)
+(*                                                                         *)
 (* `seen[s]` collects every artifact observed for source s - over all      *)
 (* processes, all histories within a process and (C19) all interleavings   *)
 (* of the threads of a process.  Deterministic: no source has two.         *)
@@ -29,7 +37,7 @@ CONSTANTS Sources,      \* source texts (model values)
           NThreads,     \* threads per process (1 for C15)
           MaxCompiles,  \* compilations per history
           Seeds,        \* hash seeds a process may draw
-          Leak          \* "none" | "interner" | "lambda" | "hashseed" | "race"
+          Leak          \* "none" | "interner" | "lambda" | "hashseed" | "race" | "poison"
 
 VARIABLES proc,         \* index of the running process
           interner,     \* size of the process-wide interner
@@ -40,8 +48,11 @@ VARIABLES proc,         \* index of the running process
           env,          \* the process environment variable naming the file being macro-expanded:
                         \* {} (unset) or {s}
           saved,        \* per thread: the value its guard found and will put back
+          lock,         \* the session mutex: "ok" | "poisoned" (a holder panicked)
           seen, ncomp
-vars == <<proc, interner, lambdas, seed, pc, dirty, env, saved, seen, ncomp>>
+vars == <<proc, interner, lambdas, seed, pc, dirty, env, saved, lock, seen, ncomp>>
+
+Faulty == IF Cardinality(Sources) >= 2 /\ Leak \in {"none", "poison"} THEN {CHOOSE s \in Sources : TRUE} ELSE {}
 
 Threads == 1..NThreads
 Idle == <<"idle">>
@@ -49,11 +60,14 @@ Size(s) == 2            \* names a source adds to the interner
 
 Init == /\ proc = 1 /\ interner = 0 /\ lambdas = 0 /\ seed \in Seeds
         /\ pc = [t \in Threads |-> Idle] /\ dirty = {}
-        /\ env = {} /\ saved = [t \in Threads |-> {}]
+        /\ env = {} /\ saved = [t \in Threads |-> {}] /\ lock = "ok"
         /\ seen = [s \in Sources |-> {}] /\ ncomp = 0
 
 Artifact(s, t) ==
-  CASE Leak = "none"     -> <<s>>
+  CASE lock = "poisoned" -> <<s, "panic: the session lock is poisoned">>
+    [] s \in Faulty      -> <<s, "panic of its own">>
+    [] Leak = "none"     -> <<s>>
+    [] Leak = "poison"   -> <<s>>
     [] Leak = "interner" -> <<s, interner>>
     [] Leak = "lambda"   -> <<s, lambdas>>
     [] Leak = "hashseed" -> <<s, seed>>
@@ -67,7 +81,7 @@ Begin(t, s) == /\ pc[t] = Idle /\ ncomp < MaxCompiles
                /\ ncomp' = ncomp + 1
                \* MacroFileEnvGuard::new: remember what is there, publish the own file
                /\ saved' = [saved EXCEPT ![t] = env] /\ env' = {s}
-               /\ UNCHANGED <<proc, lambdas, seed, seen>>
+               /\ UNCHANGED <<proc, lambdas, seed, seen, lock>>
 Finish(t) == /\ pc[t] # Idle
              /\ LET s == pc[t][2] IN seen' = [seen EXCEPT ![s] = @ \cup {Artifact(s, t)}]
              /\ pc' = [pc EXCEPT ![t] = Idle]
@@ -75,10 +89,12 @@ Finish(t) == /\ pc[t] # Idle
              /\ dirty' = {}
              \* MacroFileEnvGuard::drop: put back what was found
              /\ env' = saved[t] /\ UNCHANGED saved
+             \* the panic of a faulty job: outside the lock it concerns nobody else; inside it poisons the lock
+             /\ lock' = IF Leak = "poison" /\ pc[t][2] \in Faulty THEN "poisoned" ELSE lock
              /\ UNCHANGED <<proc, interner, seed, ncomp>>
 NewProcess == /\ proc < NProcs /\ \A t \in Threads : pc[t] = Idle
               /\ proc' = proc + 1 /\ interner' = 0 /\ lambdas' = 0 /\ seed' \in Seeds
-              /\ dirty' = {} /\ env' = {}
+              /\ dirty' = {} /\ env' = {} /\ lock' = "ok"
               /\ UNCHANGED <<pc, saved, seen, ncomp>>
 
 Next == (\E t \in Threads, s \in Sources : Begin(t, s)) \/ (\E t \in Threads : Finish(t)) \/ NewProcess
